@@ -44,7 +44,17 @@ def err_rec(ex):
 def trace_for(tid, n_e, n_p, n_c, prog, kind, rng=None):
     from graphiq.circuit.circuit_dag import CircuitDAG
     circuit = cz.build_circuit(n_e, n_p, n_c, prog)
-    edit = cz.edit_circuit(circuit, rng) if rng is not None else ""
+    edit = ""
+    if rng is not None:
+        # the circuit has been exported (and queried) once BEFORE it is edited: whatever the object remembers from that
+        # export must not leak into the export after the edit
+        try:
+            circuit.to_openqasm()
+            circuit.to_json()
+            circuit.sequence()
+        except Exception:
+            pass
+        edit = cz.edit_circuit(circuit, rng)
     src = rec_of(circuit)
     t = {"tid": tid, "meta": {"n_e": n_e, "n_p": n_p, "n_c": n_c, "program": prog, "kind": kind, "edit": edit}, "src": src,
          "wide": n_e + n_p > 5}
